@@ -196,8 +196,13 @@ def model_items(case: dict, tag: str, flip: bool) -> tuple[dict, list[tuple[str,
     for name, ents in (("a", case["k1"]), ("b", case["k2"])):
         if ents:
             ents = list(reversed(ents)) if flip else ents            # dict insertion order must not matter
-            d["k_matrix"][f"k{tag}{name}"] = {"matrix": {(lab(t), lab(f)): f"r.{r}" for t, f, r in ents}}
-            kms.append(f"k{tag}{name}")
+            # ... nor how the entries are spread over k_matrix items: in the flipped variant a K-matrix with several entries is declared as
+            # two items with disjoint entries (their combination is the matrix itself), so that a megacomplex combines up to four items
+            parts = [ents[:1], ents[1:]] if (flip and len(ents) >= 2) else [ents]
+            for pi, part in enumerate(parts):
+                key_ = f"k{tag}{name}{pi if len(parts) > 1 else ''}"
+                d["k_matrix"][key_] = {"matrix": {(lab(t), lab(f)): f"r.{r}" for t, f, r in part}}
+                kms.append(key_)
     d["initial_concentration"][f"j{tag}"] = {
         "compartments": [lab(c) for c in case["ord"]],
         "parameters": [f"j.{v}" for v in case["jv"]],
